@@ -31,7 +31,7 @@ type Dumper struct {
 var skip = map[string]bool{
 	"Parent": true, "Resolve": true, "ExtDefinition": true, "Module": true, "FeatureSet": true,
 	"Definition": true, "String": true, "Evaluate": true, "CheckValue": true, "ModuleByPrefix": true,
-	"Clone": true, "KeyMeta": false,
+	"Clone": true, "KeyMeta": true,
 	// raw templates: their content is never compiled (expanded copies are what the schema tree holds),
 	// so accessors of nodes inside them are not meaningful
 	"Groupings": true, "Augments": true,
